@@ -208,6 +208,19 @@ impl<'m> Driver<'m> {
         }
     }
 
+    /// coarse context of an operation for signatures (the description carries the exact history)
+    fn ctx(&self) -> &'static str {
+        if self.prev.starts_with("seek[") || self.prev == "resync" {
+            "after-seek"
+        } else if self.prev.starts_with("gzi_seek") {
+            "after-gzi-seek"
+        } else if self.prev == "start" {
+            "first-operation"
+        } else {
+            "sequential"
+        }
+    }
+
     fn exhausted(&self) -> bool {
         self.held_end.is_none_or(|e| self.p >= e)
     }
@@ -223,7 +236,7 @@ impl<'m> Driver<'m> {
     }
 
     fn check_vpos(&mut self, op: &str, sequential: bool) {
-        let ctx = format!("after-{}", self.prev);
+        let ctx = self.ctx().to_string();
         self.check_vpos_ctx(op, &ctx, sequential);
     }
 
@@ -297,8 +310,8 @@ impl<'m> Driver<'m> {
         self.nops += 1;
         let tag = if n >= 65536 { "read[ge64k]" } else { "read[lt64k]" };
         let direct_eligible = n >= 65536 && self.exhausted();
-        self.buf.clear();
-        self.buf.resize(n, SENTINEL);
+        // (vec! of a u8 is a memset; Vec::resize is an element-wise loop, which matters under Miri)
+        self.buf = vec![SENTINEL; n];
         let (rd, buf) = (&mut self.rd, &mut self.buf);
         let r = guard::catch(|| rd.read(&mut buf[..]));
         let k = match r {
@@ -309,7 +322,7 @@ impl<'m> Driver<'m> {
             }
             Ok(Err(e)) => {
                 self.note(format!("read({n}) -> Err({:?})", e.kind()));
-                self.fail(format!("unexpected-io-error:{tag}:{:?}:after-{}", e.kind(), self.prev), format!("read({n}) on a valid file failed: {e}"));
+                self.fail(format!("unexpected-io-error:{tag}:{:?}:{}", e.kind(), self.ctx()), format!("read({n}) on a valid file failed: {e}"));
                 return 0;
             }
             Ok(Ok(k)) => k,
@@ -338,21 +351,21 @@ impl<'m> Driver<'m> {
                     self.prev = tag.into();
                     return 0;
                 }
-                self.fail(format!("nonzero-read-at-end:{tag}:after-{}", self.prev), format!("read({n}) at end of data returned {k} bytes"));
+                self.fail(format!("nonzero-read-at-end:{tag}:{}", self.ctx()), format!("read({n}) at end of data returned {k} bytes"));
                 return 0;
             }
         } else if k == 0 && n > 0 {
-            self.fail(format!("zero-read-before-end:{tag}:after-{}", self.prev), format!("read({n}) returned 0 with {rem} bytes of data left"));
+            self.fail(format!("zero-read-before-end:{tag}:{}", self.ctx()), format!("read({n}) returned 0 with {rem} bytes of data left"));
             return 0;
         } else if k as u64 > rem {
-            self.fail(format!("read-beyond-end:{tag}:after-{}", self.prev), format!("read({n}) returned {k} bytes, only {rem} are left"));
+            self.fail(format!("read-beyond-end:{tag}:{}", self.ctx()), format!("read({n}) returned {k} bytes, only {rem} are left"));
             return 0;
         } else {
             let want = &self.m.u[self.p as usize..self.p as usize + k];
             if self.buf[..k] != *want {
                 let at = self.buf[..k].iter().zip(want).position(|(a, b)| a != b).unwrap();
                 self.fail(
-                    format!("data-mismatch:{tag}:after-{}", self.prev),
+                    format!("data-mismatch:{tag}:{}", self.ctx()),
                     format!("read({n}) returned {k} bytes that differ from U[{}..] at index {at} (got {:#04x}, want {:#04x})", self.p, self.buf[at], want[at]),
                 );
                 return 0;
@@ -373,8 +386,8 @@ impl<'m> Driver<'m> {
         }
         self.nops += 1;
         let tag = "read_exact";
-        self.buf.clear();
-        self.buf.resize(n, SENTINEL);
+        // (vec! of a u8 is a memset; Vec::resize is an element-wise loop, which matters under Miri)
+        self.buf = vec![SENTINEL; n];
         let (rd, buf) = (&mut self.rd, &mut self.buf);
         let r = guard::catch(|| rd.read_exact(&mut buf[..]));
         let rem = self.m.total() - self.p;
@@ -401,14 +414,14 @@ impl<'m> Driver<'m> {
                         self.prev = tag.into();
                         return;
                     }
-                    self.fail(format!("read-exact-unexpected-success:after-{}", self.prev), format!("read_exact({n}) succeeded although only {rem} bytes were left"));
+                    self.fail(format!("read-exact-unexpected-success:{}", self.ctx()), format!("read_exact({n}) succeeded although only {rem} bytes were left"));
                     return;
                 }
                 let want = &self.m.u[self.p as usize..self.p as usize + n];
                 if self.buf[..] != *want {
                     let at = self.buf.iter().zip(want).position(|(a, b)| a != b).unwrap();
                     self.fail(
-                        format!("data-mismatch:{tag}:after-{}", self.prev),
+                        format!("data-mismatch:{tag}:{}", self.ctx()),
                         format!("read_exact({n}) delivered bytes that differ from U[{}..] at index {at} (got {:#04x}, want {:#04x})", self.p, self.buf[at], want[at]),
                     );
                     return;
@@ -419,11 +432,11 @@ impl<'m> Driver<'m> {
             Ok(Err(e)) => {
                 self.note(format!("read_exact({n}) -> Err({:?})", e.kind()));
                 if n as u64 <= rem {
-                    self.fail(format!("read-exact-unexpected-failure:{:?}:after-{}", e.kind(), self.prev), format!("read_exact({n}) failed ({e}) although {rem} bytes were left"));
+                    self.fail(format!("read-exact-unexpected-failure:{:?}:{}", e.kind(), self.ctx()), format!("read_exact({n}) failed ({e}) although {rem} bytes were left"));
                     return;
                 }
                 if e.kind() != io::ErrorKind::UnexpectedEof {
-                    self.fail(format!("read-exact-wrong-error-kind:{:?}:after-{}", e.kind(), self.prev), format!("read_exact({n}) with {rem} bytes left failed with {e}, not UnexpectedEof"));
+                    self.fail(format!("read-exact-wrong-error-kind:{:?}:{}", e.kind(), self.ctx()), format!("read_exact({n}) with {rem} bytes left failed with {e}, not UnexpectedEof"));
                     return;
                 }
                 self.stat("read_exact_unexpected_eof_as_modelled", 1);
@@ -433,7 +446,7 @@ impl<'m> Driver<'m> {
                 match guard::catch(|| rd.vpos(false)).ok().and_then(|g| self.m.flat(g)) {
                     Some(q) if q >= self.p && q <= self.m.total() => self.p = q,
                     other => {
-                        self.fail(format!("vpos-after-failed-read-exact:after-{}", self.prev), format!("after the failed read_exact({n}) the reader's position maps to {other:?}, outside [{}, {}]", self.p, self.m.total()));
+                        self.fail(format!("vpos-after-failed-read-exact:{}", self.ctx()), format!("after the failed read_exact({n}) the reader's position maps to {other:?}, outside [{}, {}]", self.p, self.m.total()));
                         return;
                     }
                 }
@@ -468,22 +481,22 @@ impl<'m> Driver<'m> {
             }
             Ok(Err(e)) => {
                 self.note(format!("fill_buf() -> Err({:?})", e.kind()));
-                self.fail(format!("unexpected-io-error:fill_buf:{:?}:after-{}", e.kind(), self.prev), format!("fill_buf() on a valid file failed: {e}"));
+                self.fail(format!("unexpected-io-error:fill_buf:{:?}:{}", e.kind(), self.ctx()), format!("fill_buf() on a valid file failed: {e}"));
                 return;
             }
             Ok(Ok((l, bad))) => {
                 self.note(format!("fill_buf() -> {l} bytes"));
                 if rem > 0 && l == 0 {
-                    self.fail(format!("fill-buf-empty-before-end:after-{}", self.prev), format!("fill_buf() is empty with {rem} bytes of data left"));
+                    self.fail(format!("fill-buf-empty-before-end:{}", self.ctx()), format!("fill_buf() is empty with {rem} bytes of data left"));
                     return;
                 }
                 match bad {
                     Some(usize::MAX) => {
-                        self.fail(format!("fill-buf-beyond-end:after-{}", self.prev), format!("fill_buf() shows {l} bytes, only {rem} are left"));
+                        self.fail(format!("fill-buf-beyond-end:{}", self.ctx()), format!("fill_buf() shows {l} bytes, only {rem} are left"));
                         return;
                     }
                     Some(at) => {
-                        self.fail(format!("data-mismatch:fill_buf:after-{}", self.prev), format!("fill_buf() shows {l} bytes that differ from U[{}..] at index {at}", self.p));
+                        self.fail(format!("data-mismatch:fill_buf:{}", self.ctx()), format!("fill_buf() shows {l} bytes that differ from U[{}..] at index {at}", self.p));
                         return;
                     }
                     None => {}
@@ -563,8 +576,10 @@ impl<'m> Driver<'m> {
             }
             Ok(Ok(ret)) => {
                 self.note(format!("seek{}[{}]", show(rawv), class.name()));
-                if ret != rawv {
-                    self.fail(format!("seek-returned-other-position:{tag}"), format!("seek to {} returned {}", show(rawv), show(ret)));
+                // the returned value is a reported position: it has to denote the target byte
+                // (noodles echoes the argument; a canonicalised position would be just as good)
+                if self.m.flat(ret) != Some(target) {
+                    self.fail(format!("seek-returned-position-of-other-byte:{tag}"), format!("seek to {} (flat offset {target}) returned {} = flat offset {:?}", show(rawv), show(ret), self.m.flat(ret)));
                     return;
                 }
             }
